@@ -369,7 +369,7 @@ func runC06N(env *Env, s Scenario) {
 
 // ---- C07N ----
 
-var c07NStates = []string{"idle-blocked", "after-eof", "after-err-unconsumed", "after-err-consumed", "err-arriving", "eof-arriving", "data-arriving"}
+var c07NStates = []string{"idle-blocked", "after-eof", "after-eof-consumed", "after-err-unconsumed", "after-err-consumed", "err-arriving", "eof-arriving", "data-arriving"}
 
 var c07NHoldPoints = [][2]string{
 	{"nc.reader", "nc.read.top"}, {"nc.reader", "nc.read.errsend"}, {"nc.reader", "nc.read.store"}, {"nc.reader", "chan.Read.errs"}, {"nc.reader", "chan.Read.flag"},
@@ -430,6 +430,9 @@ func genC07N(seed uint64, run int, tier string) Scenario {
 		sc.Ops = append(sc.Ops, NCOp{Kind: "lose:eof"}, idle(between(r, 1, 5)))
 	case "after-err-unconsumed":
 		sc.Ops = append(sc.Ops, NCOp{Kind: "lose:readerr"}, idle(between(r, 1, 5)))
+	case "after-eof-consumed":
+		// the peer closed the stream and a later rpc was told so
+		sc.Ops = append(sc.Ops, NCOp{Kind: "lose:eof"}, idle(between(r, 0, 3)), NCOp{Kind: "get", A: "<x/>"}, idle(between(r, 0, 2)))
 	case "after-err-consumed":
 		sc.Ops = append(sc.Ops, NCOp{Kind: "lose:readerr"}, idle(between(r, 0, 2)), NCOp{Kind: "get", A: "<x/>"}, idle(between(r, 0, 2)))
 	case "err-arriving":
